@@ -30,7 +30,7 @@ Proof.
 Qed.
 
 Lemma to_display_np v : to_display v <> Panic.
-Proof. destruct v; cbn [to_display]; try discriminate. destruct b; discriminate. Qed.
+Proof. destruct v; cbn [to_display]; try discriminate; [destruct b; discriminate| |]; match goal with |- context [dbg_value ?x] => destruct (dbg_value x) end; discriminate. Qed.
 
 Lemma binary_op_np op l r : binary_op op l r <> Panic.
 Proof.
